@@ -24,6 +24,9 @@ class Spec:
     assumptions = ["manual edits always change mtime (redo cannot see anything else)", "-j1, one invocation at a time"]
     checks = {"userfiles", "execset", "content", "query"}
 
+    def accepts(self, case):
+        return "dblock" not in case
+
     def cases(self, tier):
         return 1600 if tier == "quick" else 16000
 
@@ -44,3 +47,16 @@ class Spec:
 
 
 SPEC = Spec()
+
+
+def spec_for(case):
+    from . import c11lock
+    return c11lock.SPEC if "dblock" in case else SPEC
+
+
+def run_check(tier, seed):
+    from .. import engine
+    code, ev = engine.run_property("rv.props.c11", tier, seed)
+    code2, ev2 = engine.run_property("rv.props.c11lock", tier, seed)
+    ev = engine.merge_evidence(ev, ev2, "serial histories", "hand-made file while redo waits for the database")
+    return (1 if 1 in (code, code2) else max(code, code2)), ev
